@@ -62,6 +62,16 @@ CHECKS = {
             'are evaluated and synthetic hostile tuples per helper family - and results/exception classes compared. '
             'Held on the calls observed.',
             'Trusted: nothing but CPython; both sides are the real code. Arguments are sampled.'),
+    'C09': ('runtime monitoring: facade event log checked against a sequential model; sha256 across a process x hash-seed '
+            'matrix; thread stress with sys.monitoring yield injection',
+            'All facade histories up to length 3 (thorough 4) plus random longer ones are executed on the real Parser; every '
+            'get/write is compared with what a fresh parser returns for the settings in force, written bytes with returned '
+            'text. The same corpus is translated in fresh processes under several PYTHONHASHSEEDs, before and after other '
+            'translations, and by 8 barrier-released threads on their first translation with yields injected inside the lazy '
+            'token-table initialisation; one sha256 per workbook is demanded throughout. Evidence reports overlaps and '
+            'distinct interleavings actually observed.',
+            'Trusted: a fresh Parser as reference. Interleavings are sampled, not enumerated; a trial without observed overlap '
+            'makes the run inconclusive.'),
 }
 
 LEVELS = {}
